@@ -275,12 +275,79 @@ func textWitness(res *Result) string {
 	return coqfmt.App("KText", coqfmt.Nat(2), coqfmt.List(steps))
 }
 
+// textWitnessGC runs the scenario of Proofs/GCWitness.v text_purged_stopper_changes_order (finding
+// P4 in the text structure) on the real crdt.Text, once keeping the tombstone and once purging it.
+func textWitnessGC(res *Result) string {
+	a1, a7, a8, a9 := actorOf(1), actorOf(7), actorOf(8), actorOf(9)
+	ta, tb, tc := time.NewTicket(1, 0, a1), time.NewTicket(2, 0, a1), time.NewTicket(3, 0, a1)
+	head := crdt.NewRGATreeSplitNodePos(crdt.NewRGATreeSplitNodeID(time.InitialTicket, 0), 0)
+	after := func(t *time.Ticket) *crdt.RGATreeSplitNodePos {
+		return crdt.NewRGATreeSplitNodePos(crdt.NewRGATreeSplitNodeID(t, 0), 1)
+	}
+	vv := func(m map[time.ActorID]int64) time.VersionVector {
+		v := time.NewVersionVector()
+		for a, l := range m {
+			v.Set(a, l)
+		}
+		return v
+	}
+	type ed struct {
+		from, to *crdt.RGATreeSplitNodePos
+		content  string
+		tk       *time.Ticket
+		vv       time.VersionVector
+		purge    *time.Ticket
+	}
+	base := []ed{
+		{head, head, "a", ta, nil, nil},
+		{after(ta), after(ta), "b", tb, nil, nil},
+		{after(tb), after(tb), "c", tc, nil, nil},
+		{after(tb), after(tb), "x", time.NewTicket(10, 0, a9), vv(map[time.ActorID]int64{a1: 3, a9: 10}), nil},
+		{after(ta), after(tb), "", time.NewTicket(5, 0, a7), vv(map[time.ActorID]int64{a1: 3, a7: 5}), nil},
+	}
+	m := ed{after(ta), after(ta), "m", time.NewTicket(6, 0, a8), vv(map[time.ActorID]int64{a1: 3, a7: 5, a8: 6}), nil}
+	var steps []string
+	var shown []string
+	for i, order := range [][]ed{append(append([]ed{}, base...), m), append(append([]ed{}, base...), ed{purge: tb}, m)} {
+		txt := crdt.NewText(crdt.NewRGATreeSplit(crdt.InitialTextNode()), time.InitialTicket)
+		for _, e := range order {
+			var top string
+			var err error
+			if e.purge != nil {
+				for _, nd := range txt.Nodes() {
+					if nd.ID().CreatedAt().Compare(e.purge) == 0 && nd.RemovedAt() != nil {
+						top = coqfmt.App("TPurge", ticketCoq(e.purge), coqfmt.N(uint64(nd.ID().Offset())), coqfmt.N(uint64(len(nd.Value().Value()))))
+						err = txt.RGATreeSplit().Purge(nd)
+						break
+					}
+				}
+				if top == "" {
+					continue
+				}
+			} else {
+				_, _, _, _, _, err = txt.Edit(e.from, e.to, e.content, nil, e.tk, e.vv)
+				pf, _ := posCoq(e.from)
+				pt, _ := posCoq(e.to)
+				var vals []string
+				for k := 0; k < len(e.content); k++ {
+					vals = append(vals, coqfmt.N(uint64(e.content[k])))
+				}
+				top = coqfmt.App("TEdit", pf, pt, coqfmt.List(vals), ticketCoq(e.tk), textVVCoq(e.vv))
+			}
+			steps = append(steps, coqfmt.Pair(coqfmt.Pair(coqfmt.Pair(coqfmt.Nat(i), top), coqfmt.Bool(err != nil)), coqfmt.List(textChars(txt))))
+		}
+		shown = append(shown, txt.String())
+	}
+	res.Notes = append(res.Notes, fmt.Sprintf("finding P4 in crdt.Text (Proofs/GCWitness.v text_purged_stopper_changes_order): the late insert lands at %q with the tombstone kept and at %q with the tombstone purged", shown[0], shown[1]))
+	return coqfmt.App("KText", coqfmt.Nat(2), coqfmt.List(steps))
+}
+
 func runTextRGA(cfg *config) error {
 	r := rng.New(cfg.seed)
 	res := newResult("textrga", cfg.seed)
 	var cases []string
 	seen := distinct{}
-	cases = append(cases, textWitness(res))
+	cases = append(cases, textWitness(res), textWitnessGC(res))
 	for i := 0; i < cfg.n; i++ {
 		c, nontriv, viol := textCase(r.Fork(), res)
 		cases = append(cases, c)
